@@ -152,6 +152,13 @@ CHECKS = {
         'rhs build, vector kernels, whole setup()+solve(); the OpenMP runtime itself (barriers) is assumed.',
    note='Trusted: Coq kernel (axiom-free theorems), translator T2, hand-written footprints validated by K-footprint on every run, the over-approximating concurrency model.',
    design='5/C11'),
+ 'C12': dict(
+   technique='Coq proof (law-free): conflict-free tasks commute, the state after a phase is the same for every execution order and every interleaving of independent tasks, linked to the C11 race-freedom theorems of the regenerated regions; chunked reductions equal their sequential definition + K-repro correspondence of the vector kernels (exact) and observation of whole solves / transfers across thread counts',
+   text='PARTIAL. Proved: for the residual and smoother regions (race free by C11) the result of every phase is independent of the execution order, hence of thread count and schedule, bit for bit (any value type, so also IEEE doubles); '
+        'sum and max reductions equal their definition for every chunking and combination order (exact arithmetic); threads per level lie in [1, max]. Tied by correspondence: all nine vector kernels below, at and above the 10 000 threshold for 1..32 threads equal their exact definitions (inputs with exact partial sums). '
+        'Observed on the implementation, not proved: run-to-run bitwise reproducibility and thread-count differences below 1e-9 relative for whole solves (incl. a grid above the threshold) and 1e-12 for the six transfer operators on a non-uniform 129 x 128 grid; rounding of re-associated floating-point reductions is modelled.',
+   note='Trusted: Coq kernel (determinism theorems axiom-free; reduction theorems over the reals), translator T2 (premise), KernelDefs tied by K-repro, OpenMP static scheduling assumed.',
+   design='5/C12'),
 }
 NA_REASON = 'check not built in this revision of /verif (design in DESIGN.md section 5/C12; the race-freedom theorems of C11 are its foundation); not claimed'
 
